@@ -263,8 +263,10 @@ def run(cx):
         t = no.of_rvalue(aggs[0]["rv"])
         f = dict(zip(t[4], t[3]))
         pid = f["peer_id"]
-        ok = is_param(f["inner"], "inner") and term_has_call(pid, "anemo::connection::Connection::try_peer_id") and mentions_param(pid, "inner") \
-            and any(x[0] == "variant" and x[2] == "Continue" for x in walk(pid))
+        # on every way of producing it (a join of alternatives is accepted only if each one is the id read from this connection)
+        palts = list(strip_identity(pid)[1]) if strip_identity(pid)[0] == "phi" else [pid]
+        ok = is_param(f["inner"], "inner") and all(term_has_call(a_, "anemo::connection::Connection::try_peer_id") and mentions_param(a_, "inner")
+                                                   and any(x[0] == "variant" and x[2] == "Continue" for x in walk(a_)) for a_ in palts)
         ob.require(ok, "Connection::new/peer-id-of-same-connection", f"Connection::new builds {show(t)[:200]}", nb.path)
         tb = cx.body("anemo::connection::Connection::try_peer_id")
         to = Origins(tb)
@@ -327,8 +329,12 @@ def run(cx):
         tgt = arg_origin(ins[0], 0, ro)
         ob.require(term_has_call(tgt, "Response::extensions_mut") and term_has_call(tgt, "anemo::network::wire::read_response"), "outbound/target",
                    f"PeerId inserted into {show(tgt)[:100]}", rb.path)
-        oks = [i for i, bl in enumerate(rb.blocks) if not bl.get("cleanup") for s in bl["s"] if s["k"] == "assign" and s["lhs"] == 0 and s["rv"].get("variant") == "Ok"]
-        ob.require(len(oks) == 1 and rb.dominates(ins[0].bb, oks[0]), "outbound/before-return", "PeerId insert does not dominate Ok(response)", rb.path)
+        # every place that wraps the decoded response into the Ok result (directly into the return slot, or in a helper whose
+        # result is returned) comes after the insert
+        oks = [i for i, bl in enumerate(rb.blocks) if not bl.get("cleanup") for s in bl["s"]
+               if s["k"] == "assign" and s["rv"]["k"] == "agg" and s["rv"].get("variant") == "Ok" and str(s["rv"].get("adt", "")).endswith("result::Result")
+               and (s["lhs"] == 0 or term_has_call(ro.of_rvalue(s["rv"]), "anemo::network::wire::read_response"))]
+        ob.require(len(oks) >= 1 and all(rb.dominates(ins[0].bb, k_) for k_ in oks), "outbound/before-return", "PeerId insert does not dominate Ok(response)", rb.path)
         pb = cx.body("anemo::network::peer::Peer::peer_id")
         t = strip_identity(Origins(pb).of_local(0))
         ob.require(t[0] == "call" and name_matches(t[1], "anemo::connection::Connection::peer_id") and mentions_field(t, "connection"), "Peer::peer_id",
